@@ -4,7 +4,7 @@ Exit 0: the property held on everything explored (KNOWN-FINDING lines allowed)
 Exit 1: a line "VIOLATION property=<id> replay=<path>[ no-failing-input-found]" was printed
 Exit 2: harness error (build failure not attributable to /repo, driver crash, timeout)
 """
-import importlib, json, os, sys, time, traceback
+import importlib, json, os, re, sys, time, traceback
 
 HERE = os.path.dirname(os.path.abspath(__file__))
 sys.path.insert(0, HERE)
@@ -22,6 +22,8 @@ def finding_matches(f, v):
             return False
     anyof = pred.get("case_contains_any")
     if anyof and not any(n in blob for n in anyof):
+        return False
+    if pred.get("case_regex") and not re.search(pred["case_regex"], blob):
         return False
     if pred.get("what") and pred["what"] != v.get("what"):
         return False
@@ -58,17 +60,23 @@ def main(argv):
     try:
         # known findings: replay each recorded witness
         for f in findings:
-            if f.get("kind") != "finding":
-                continue
             try:
                 still = mod.finding_reproduces(ctx, f)
             except Exception:  # noqa: BLE001
+                traceback.print_exc()
                 still = None
+            if f.get("kind") == "fixed":
+                # a repaired defect suppresses nothing: its witness belongs to the corpus and must pass
+                rep.dist["corpus:fixed-defect-witness"] += 1
+                if still:
+                    rep.violate("repaired-defect-returned:" + f["id"], dict(f["witness"]), "the behaviour after " + f.get("commit", "the fix"),
+                                f["what"], model_agrees_with_spec=True)
+                continue
             if still:
                 print("KNOWN-FINDING: property=%s %s" % (prop, f["what"]))
                 rep.known.append(f)
             else:
-                print("NOTE: known finding %s no longer reproduces (%s)" % (f["id"], still))
+                print("NOTE: known finding %s does not reproduce in the recorded way (%s)" % (f["id"], still))
         mod.run(ctx, 1)
         # a broken obligation or tie: search harder for a concrete failing input
         if (lean["broken"] or rep.disagreements) and not rep.violations:
